@@ -79,6 +79,14 @@ def run_case(case):
             flat = [int(x) for t in items for x in t[0]]
             if flat != list(range(lim)):
                 msg = "numpy chunks do not concatenate to the input prefix"
+            # n_splits = s (given, or n_jobs * 4 when neither is given) over the lim elements that are used: exactly min(lim, s)
+            # chunks whose sizes differ by at most one
+            s = case['ns'] if case['ns'] is not None else (case['nj'] * 4 if (cs is None and case.get('nj')) else None)
+            if msg is None and cs is None and s is not None:
+                if len(lens) != min(lim, s):
+                    msg = f"numpy input, n_splits={s} over {lim} elements (n={case['n']}, iterable_len={case['ilen']}): {len(lens)} chunks, expected {min(lim, s)}"
+                elif lens and max(lens) - min(lens) > 1:
+                    msg = f"numpy input, n_splits={s} over {lim} elements: sizes differ by more than one: {lens[:12]}"
         return {'lens': [announced] + lens, 'oracle': msg}
     inp = make_input('gen' if kind == 'gen_nolen' else kind, case['n'])
     try:
